@@ -100,20 +100,10 @@ theorem pause_request_is_good (c : Cfg) (w : World) (a : Nat) : Good w (step c w
   good_step c w (.pause a)
 
 
-/-- "the workflow and its running sub-workflows are PAUSED" at full strength (every RUNNING execution below the
-    paused one) is FALSE of the code: pause_workflow only descends into sub-workflows that are not completed;
-    after stop(ERROR) of the middle execution (which does not touch its sub-workflows) the pause of the root
-    leaves the grandchild RUNNING.  Replayed on the real engine: corpus/C10/tree_pause_skips.json (known
-    finding). -/
-theorem pause_subtree_full_fails :
-    ¬ (∀ (c : Cfg) (evs : List Event) (a x : Nat),
-        below (run c evs) a (run c evs).execs.length x = true → stateOf (run c evs) x = some .RUNNING →
-        stateOf (run c evs) a = some .RUNNING →
-        stateOf (step c (run c evs) (.pause a)) x = some .PAUSED) := by
-  intro h
-  have := h chain3 (chain3Up ++ [.stop 1 .ERROR "m"]) 0 2 (by decide +kernel) (by decide +kernel) (by decide +kernel)
-  revert this
-  decide +kernel
+/-- the former witness of `pause_subtree_full_fails` (stop(ERROR) of the middle execution, pause of the root): since
+    repo patch 23 the grandchild below the finished child is paused too -/
+example : ((step chain3 (run chain3 (chain3Up ++ [.stop 1 .ERROR "m"])) (.pause 0)).execs.map (·.state)) =
+    [.PAUSED, .ERROR, .PAUSED] := by decide +kernel
 
 /-- the whole transaction of a resume request (with everything it propagates to) never touches a finished
     execution either (needs the re-check of repo patch 20) -/
@@ -171,24 +161,28 @@ theorem shape_reachable (c : Cfg) (evs : List Event) : Shape (run c evs) :=
   ⟨fun i e h => ((allJ_reachable c evs).1 i e h).2.2, (allJ_reachable c evs).2.2.1⟩
 
 /-- For EVERY reachable tree: a pause request on an execution that is not finished is acknowledged (the
-    transaction does not raise), and after it the execution itself and every execution that `pause_workflow`
-    reaches from it through executions that are not completed (`Chain`: sub-workflows of its tasks, their
-    sub-workflows, ... at any depth `d` below the nesting bound of the model) is PAUSED — in the SAME
-    transaction, whatever the kinds of the calling tasks. -/
-theorem pause_propagates (c : Cfg) (evs : List Event) (a : Nat) (e : Exec)
-    (he : (run c evs).execs[a]? = some e) (hc : isCompleted e.state = false) (d y : Nat)
-    (hd : d < fuelOf (run c evs)) (hch : Chain (run c evs) d a y) :
+    transaction does not raise), and after it EVERY execution at or below it that is not completed — at any
+    depth, whatever the states of the executions in between and the kinds of the calling tasks — is PAUSED, in
+    the SAME transaction.  (`below`: the parent links walked upwards, as in C11Tree.cancel_subtree.) -/
+theorem pause_subtree (c : Cfg) (evs : List Event) (a : Nat) (e : Exec)
+    (he : (run c evs).execs[a]? = some e) (hc : isCompleted e.state = false) (y : Nat) (ey : Exec)
+    (hy : (run c evs).execs[y]? = some ey) (hb : below (run c evs) a (run c evs).execs.length y = true)
+    (hu : isCompleted ey.state = false) :
     stateOf (step c (run c evs) (.pause a)) y = some .PAUSED := by
   have hok := (pause_ok c (fuelOf (run c evs))).1 (run c evs) a (shape_reachable c evs)
-  have hnr := hok.noraise e he hc
+  have hnr := hok.noraise ⟨e, he, hc⟩
+  obtain ⟨d, hd, hdesc⟩ := desc_of_below (run c evs) a _ y hb
   simp only [step, hnr, Bool.false_eq_true, if_false]
-  exact hok.paused d y hd hch
+  exact hok.paused d y (by simp only [fuelOf]; omega) hdesc ⟨ey, hy, hu⟩
 
-/-- ... in particular the paused execution itself (depth 0) -/
+/-- ... in particular the paused execution itself -/
 theorem pause_acknowledged_tree (c : Cfg) (evs : List Event) (a : Nat) (e : Exec)
     (he : (run c evs).execs[a]? = some e) (hc : isCompleted e.state = false) :
-    stateOf (step c (run c evs) (.pause a)) a = some .PAUSED :=
-  pause_propagates c evs a e he hc 0 a (by simp [fuelOf]) ⟨rfl, e, he, hc⟩
+    stateOf (step c (run c evs) (.pause a)) a = some .PAUSED := by
+  have hok := (pause_ok c (fuelOf (run c evs))).1 (run c evs) a (shape_reachable c evs)
+  have hnr := hok.noraise ⟨e, he, hc⟩
+  simp only [step, hnr, Bool.false_eq_true, if_false]
+  exact hok.paused 0 a (by simp [fuelOf]) rfl ⟨e, he, hc⟩
 
 /-- the pause transaction creates no execution and no task, keeps every link, and changes execution states
     only from RUNNING to PAUSED (in every reachable state) -/
@@ -196,13 +190,11 @@ theorem pause_only_pauses (c : Cfg) (evs : List Event) (a : Nat) (e : Exec)
     (he : (run c evs).execs[a]? = some e) (hc : isCompleted e.state = false) :
     PMono (run c evs) (step c (run c evs) (.pause a)) := by
   have hok := (pause_ok c (fuelOf (run c evs))).1 (run c evs) a (shape_reachable c evs)
-  have hnr := hok.noraise e he hc
+  have hnr := hok.noraise ⟨e, he, hc⟩
   simp only [step, hnr, Bool.false_eq_true, if_false]
   exact hok.mono
 
-/-- non-vacuity: in the three nested executions the innermost one is reached from the root at depth 2 -/
-example : Chain (run chain3 chain3Up) 2 0 2 :=
-  ⟨1, by decide +kernel, ⟨_, rfl, by decide +kernel⟩, 2, by decide +kernel, ⟨_, rfl, by decide +kernel⟩, rfl, _, rfl,
-   by decide +kernel⟩
+/-- non-vacuity: in the three nested executions the innermost one is below the root -/
+example : below (run chain3 chain3Up) 0 (run chain3 chain3Up).execs.length 2 = true := by decide +kernel
 
 end Mistral.Props.C10Tree
